@@ -235,3 +235,25 @@ pub fn mainline(req: &Value) -> Result<Value, String> {
     }
     Ok(json!({"r": "ok", "order": first, "stable": stable}))
 }
+
+
+/// C07: the graph built for one event from its auth chain restricted to the auth difference
+pub fn power_graph(req: &Value) -> Result<Value, String> {
+    use std::collections::HashSet;
+    let mut by_id: HashMap<String, Pdu> = HashMap::new();
+    for e in req["events"].as_array().cloned().unwrap_or_default() {
+        let id = e["id"].as_str().unwrap_or("").to_owned();
+        let auth: Vec<String> = e["auth"].as_array().cloned().unwrap_or_default().iter().filter_map(|x| x.as_str().map(str::to_owned)).collect();
+        by_id.insert(id.clone(), pdu(&json!({"event_id": id, "type": "m.room.topic", "sender": "@a:x", "state_key": "", "content": {}, "auth_events": auth}))?);
+    }
+    let mut diff: HashSet<OwnedEventId> = HashSet::new();
+    for d in req["auth_diff"].as_array().cloned().unwrap_or_default() {
+        diff.insert(<&EventId>::try_from(d.as_str().unwrap_or("")).map_err(|e| e.to_string())?.to_owned());
+    }
+    let mut graph: HashMap<OwnedEventId, HashSet<OwnedEventId>> = HashMap::new();
+    let start = <&EventId>::try_from(req["start"].as_str().unwrap_or("")).map_err(|e| e.to_string())?.to_owned();
+    ruma_state_res::verif_add_event_and_auth_chain_to_graph(&mut graph, start, &diff, |id: &EventId| by_id.get(id.as_str()).cloned());
+    let mut out = serde_json::Map::new();
+    for (k, v) in &graph { let mut es: Vec<String> = v.iter().map(|x| x.as_str().to_owned()).collect(); es.sort(); out.insert(k.as_str().to_owned(), json!(es)); }
+    Ok(json!({"r": "ok", "graph": out}))
+}
